@@ -410,7 +410,14 @@ func (vm *VM) intBinopSym(op token.Token, x, y Value, bits int, signed bool, sit
 		return wr(smt.Sub(a, b))
 	case token.MUL:
 		if !smt.IsLinearMul(a, b) {
-			vmErr("symbolic x symbolic machine multiplication")
+			var p *smt.Term
+			if vm.ConcreteValues == nil {
+				p = vm.pinTerm(a)
+			}
+			if p == nil {
+				vmErr("symbolic x symbolic machine multiplication")
+			}
+			a = p
 		}
 		return wr(smt.Mul(a, b))
 	case token.QUO, token.REM:
